@@ -15,6 +15,7 @@ for p in $PROPS; do
 done
 for d in seeded/*/; do
   sid=$(basename "$d")
+  if [ -n "$SEED_FILTER" ] && ! echo "$sid" | grep -Eq "$SEED_FILTER"; then continue; fi
   git -C "$R" apply "$HERE/${d}patch.diff" || { echo "$sid: patch does not apply"; continue; }
   line="$sid:"
   for p in $PROPS; do
